@@ -34,6 +34,12 @@ def literals(tier):
                 t = (("%d" % v) if base == "dec" else ("0x%x" % v)) + suf
                 if valid_literal(t):
                     out.append(t)
+        # the other spellings of a hexadecimal constant the grammar admits (prefix and digits in upper case)
+        for fmt in ("0X%x", "0x%X", "0X%X"):
+            for suf in ("", "U", "ll"):
+                t = (fmt % v) + suf
+                if valid_literal(t) and t not in out:
+                    out.append(t)
     return out
 
 
